@@ -1,3 +1,5 @@
+//go:build !skip_c16
+
 package main
 
 // C16 (solver level) — orders leave nothing behind.
